@@ -126,20 +126,22 @@ def run(ctx):
     ctx.rule("R7", "a stream's sink exists whenever its own cadence is positive: writer enable flags are implied by every stream they serve")
     ctx.rule("R8", "cadences by value: the interpreted run loop, output setup and writers of the base engine put exactly the due steps of every stream (screen, XYZ, data, "
                    "coordinates, velocities, forces, checkpoints, transition densities; nonadiabatic at writer level) into its sink, fresh and resumed")
-    by_value = _r8_by_value(ctx, repo, md)
+    by_value, na_engine = _r8_by_value(ctx, repo, md)
     # R1-R7 are shape-based readings of what R8 decides by value for the base engine, its output setup and the writers.  When R8 holds, their findings and their "shape not
     # recognised" stops about code of seqm/MolecularDynamics.py are not reported; the gating of the nonadiabatic stream inside the surface-hopping engine
     # (seqm/NonadiabaticDynamics.py) is judged by the shape-based rules only.
     if by_value:
-        ctx.demote = lambda rid, rel, function, message: ("decided by value in R8" if rel == MD and "nonadiabatic" not in message.lower() else None)
+        ctx.demote = lambda rid, rel, function, message: ("decided by value in R8" if (rel == MD and ("nonadiabatic" not in message.lower() or na_engine))
+                                                          or (rel == NAD and na_engine) else None)
     try:
         _shape_based(ctx, repo, md, nad, ct)
     except AnalysisError as e:
-        if by_value and "NonadiabaticDynamics" not in str(e) and "nonadiabatic" not in str(e).lower():
+        if by_value and (na_engine or ("NonadiabaticDynamics" not in str(e) and "nonadiabatic" not in str(e).lower())):
             ctx.note(f"shape-based rules stopped ({str(e)[:120]}); the streams of the base engine and the writers are decided by value in R8")
             for rid in ("R1", "R2", "R3", "R4", "R5", "R6", "R7"):
                 ctx.ok(rid, MD, "decided by value in R8 (shape-based reading not applicable to this spelling)", nontrivial=False)
-            _nonadiabatic_engine_gate(ctx, repo, md, nad, ct)
+            if not na_engine:
+                _nonadiabatic_engine_gate(ctx, repo, md, nad, ct)
         else:
             raise
     finally:
@@ -294,7 +296,7 @@ def _r8_by_value(ctx, repo, md) -> bool:
     except AnalysisError as e:
         ctx.note(f"R8: the run loop / output setup / writers could not be interpreted ({str(e)[:140]}); cadences are judged by the shape-based rules R1-R7 only")
         ctx.ok("R8", MD, "not interpretable in this spelling: judged by the shape-based rules", nontrivial=False)
-        return False
+        return False, False
     good = True
     run = md.func("Molecular_Dynamics_Basic.run")
 
@@ -315,7 +317,21 @@ def _r8_by_value(ctx, repo, md) -> bool:
         ctx.check(not msgs, "R8", md, ap, "HDF5Writer.append_nonadiabatic", f"nonadiabatic cadence {c}, {N} steps", f"nonadiabatic rows of the writer are the due steps (cadence {c}, {N} steps)",
                   (msgs[0] if msgs else "") + f" [nonadiabatic cadence {c}, {N} steps]")
         good = good and not msgs
-    return good
+    # the stream as the surface-hopping engine feeds it (initial call in initialize, per-step call in _do_integrator_step)
+    na_good = False
+    try:
+        nae = h5model.interpreted_nonadiabatic_engine(repo)
+        na_good = True
+        nadm = repo.mod(NAD)
+        step_f = nadm.func("NonadiabaticDynamicsBase._do_integrator_step")
+        for c, N, msgs in nae:
+            ctx.check(not msgs, "R8", nadm, step_f, "NonadiabaticDynamicsBase._do_integrator_step", f"engine-fed nonadiabatic cadence {c}, {N} steps",
+                      f"nonadiabatic rows written by the surface-hopping engine are the due steps (cadence {c}, {N} steps, fresh and resumed)",
+                      (msgs[0] if msgs else "") + f" [engine-fed nonadiabatic cadence {c}, {N} steps]")
+            na_good = na_good and not msgs
+    except AnalysisError as e:
+        ctx.note(f"R8: the nonadiabatic call sites of the surface-hopping engine could not be interpreted ({str(e)[:120]}); judged by the shape-based rules")
+    return good, (good and na_good)
 
 
 def _positive_guard(y, ctrl, ct=None, func=None, cls=None, depth=0) -> bool:
